@@ -512,6 +512,10 @@ def opMiner (j : Json) : R Json := do
   let lists (k : String) : R (List (List Rat)) := do (← fldArr j k).mapM fun l => do (← arr l).mapM ratOf
   let noisy ← lists "noisy"
   let taint ← lists "taint"
+  -- per node of "taint": was it a seed itself (absent: no node was)
+  let seeds : List Bool ← match j.getObjVal? "seeds" with
+    | .ok (Json.arr a) => a.toList.mapM fun x => match x with | Json.bool b => pure b | _ => throw "seeds: bool expected"
+    | _ => pure (taint.map fun _ => false)
   let urels ← (← fldArr j "rels").mapM fun r => do
     pure ({ kind := ← fldStr r "kind", source := ← fldStr r "source", target := ← fldStr r "target",
             sourceType := ← fldStr r "sourceType", targetType := ← fldStr r "targetType" } : URel)
@@ -521,6 +525,7 @@ def opMiner (j : Json) : R Json := do
     Json.arr (all.map fun (a, b, c, d) => jStrs [a, b, c, d]).toArray
   pure (Json.mkObj [("noisy", Json.arr (noisy.map fun l => ratJson (noisyOr l)).toArray),
     ("taint", Json.arr (taint.map fun l => ratJson (taintOf l)).toArray),
+    ("taintHistory", Json.arr (((taint.zip seeds).map fun (l, sd) => ratJson (taintHistory sd l))).toArray),
     ("names", uni "name"), ("descriptions", uni "description"), ("containers", uni "container")])
 
 def opMediator (j : Json) : R Json := do
